@@ -51,7 +51,7 @@ def seeded_table():
         how = []
         for prop, ok in sorted(m.get("checks_result", {}).items()):
             if not ok:
-                how.append("%s: %s" % (prop, "not reported - not a violation of the property as stated" if m.get("not_a_violation") else "not reported"))
+                how.append("%s: %s" % (prop, ("not reported - superseded by a later fix: commit" if m.get("superseded") else "not reported - not a violation of the property as stated") if m.get("not_a_violation") else "not reported"))
                 continue
             cls = sorted({re.sub(r"^%s-\d+-" % prop, "", os.path.basename(x))[:-5] for x in re.findall(r"VIOLATION property=%s replay=(\S+)" % prop, logs)})
             nf = "no-failing-input-found" in logs and any("correspondence" in c or "proof" in c for c in cls)
@@ -65,14 +65,14 @@ def seeded_table():
     for r in rows:
         out.append("| " + " | ".join(x.replace("|", "\\|").replace("\n", " ") for x in r) + " |")
     n = len(rows)
-    nav = [r[0] for r in rows if "not a violation" in r[3]]
+    nav = [r[0] for r in rows if "not a violation" in r[3] or "superseded" in r[3]]
     rows_j = [r for r in rows if r[0] not in nav]
     missed = [r[0] for r in rows_j if "not reported" in r[3] and not any(p.split(":")[0] == r[0].split("-")[0] and "not reported" not in p for p in r[3].split("; "))]
     head = ("%d seeded changes, each written by an independent sub-agent that saw only the property text and a scratch worktree, "
             "each confirmed here (demonstration fails with the change, passes without, pinned suite passes with it). "
             "Reported by the check of the property it was written against: %d of %d.%s%s\n" %
             (n, len(rows_j) - len(missed), len(rows_j), (" Not reported by that check: " + ", ".join(missed) + ".") if missed else "",
-             (" Judged not to break the property as stated (and therefore rightly not reported): " + ", ".join(nav) + ".") if nav else ""))
+             (" Judged not to break the property as stated, or superseded by a later repair of the code they edit (and therefore not reported): " + ", ".join(nav) + ".") if nav else ""))
     return head + "\n" + "\n".join(out) + "\n"
 
 
